@@ -17,7 +17,8 @@ CONSTANTS Self,        \* id of the node under test
           Origins,     \* origins that may appear in updates
           Ids,         \* update ids (few, so that reuse happens)
           ConnSets,    \* adjacency maps that may appear in updates
-          MaxSeq, MaxSteps, DumpHist
+          MaxSeq, MaxSteps, DumpHist,
+          WithExpire   \* whether ids may age out of the seen table (expireSeenUpdates)
 
 VARIABLES ns,      \* node state (NetCore)
           last,    \* the last step: input and the effects the spec expects (what the harness compares)
@@ -82,7 +83,15 @@ Legal(i) == /\ i.u.epoch \in Epochs(i.u.node)
             \* forged forwarder: one representative per (origin, epoch, id)
             /\ (i.u.fwd # i.via => (i.u.susp = 0 /\ i.u.seq = 1 /\ i.u.conns = EmptyF))
 
-Next == \E i \in {x \in Inputs : Legal(x)} : Step(i.via, i.u)
+\* expireSeenUpdates (809-825): ids older than the expiry time are forgotten; any subset may have aged out
+Expire(S) ==
+  /\ S # {} /\ S \subseteq ns.seen
+  /\ ns' = [ns EXCEPT !.seen = @ \ S]
+  /\ last' = [NoStep EXCEPT !.class = "expire", !.conn = ns.conn, !.known = ns.known, !.info = ns.info]
+  /\ hist' = hist
+
+Next == \/ \E i \in {x \in Inputs : Legal(x)} : Step(i.via, i.u)
+        \/ (WithExpire /\ \E S \in SUBSET ns.seen : Expire(S))
 
 \* For behaviour generation (tlc -simulate): the spec itself draws ONE legal input per step, so that a
 \* simulation run is a uniformly random walk and invariants are evaluated on the walk only.
@@ -100,7 +109,7 @@ Plain == L.u.fwd = L.via /\ L.reject = "" /\ L.class # "late_init" /\ L.u.susp =
 
 \* an update that is older than, equal to, or a replay of one already accepted changes nothing and is not relayed
 NoChangeOnStale ==
-  [][ (L.class # "init" /\ Plain /\ (~L.fresh \/ (Has(ns.info, L.u.node) /\ LexLE(<<L.u.epoch, L.u.seq>>, ns.info[L.u.node]))))
+  [][ (L.class \notin {"init", "expire"} /\ Plain /\ (~L.fresh \/ (Has(ns.info, L.u.node) /\ LexLE(<<L.u.epoch, L.u.seq>>, ns.info[L.u.node]))))
         => (ns'.known = ns.known /\ ns'.info = ns.info /\ L.relayTo = {}) ]_vars
 
 \* the per-origin (epoch, seq) never decreases, except by the named suspected-duplicate adoption
@@ -108,19 +117,21 @@ InfoMonotone ==
   [][ L.class = "init" \/ (\A o \in DOMAIN ns.info : Has(ns'.info, o) /\ (LexLE(ns.info[o], ns'.info[o]) \/ L.class = "dup_notice")) ]_vars
 
 \* never relayed back to the neighbour it came from; never relayed when it names this node as origin
-NeverBack == [][ L.class = "init" \/ (L.via \notin L.relayTo /\ (L.u.node = Self => L.relayTo = {})) ]_vars
+NeverBack == [][ L.class \in {"init", "expire"} \/ (L.via \notin L.relayTo /\ (L.u.node = Self => L.relayTo = {})) ]_vars
 
 \* an update from our own current run is ignored completely
 SelfFilter ==
   [][ (L.u.node = Self /\ L.u.epoch = SelfEpoch /\ L.u.fwd = L.via) => (ns' = ns /\ L.relayTo = {}) ]_vars
 
 \* an update is relayed only the first time its id is seen, and the id is remembered: at most one relay per id
+\* at most one relay per id WHILE the id is remembered; after the id has aged out, a replay is still not applied or
+\* relayed because of the (epoch, sequence) test (NoChangeOnStale) - that is what makes expiry safe
 RelayOnce == [][ L.relayTo # {} => (L.fresh /\ L.u.id \in ns'.seen) ]_vars
-SeenGrows == [][ L.class = "init" \/ ns.seen \subseteq ns'.seen ]_vars
+SeenGrows == [][ L.class \in {"init", "expire"} \/ ns.seen \subseteq ns'.seen ]_vars
 
 \* a genuine (fresh, newer) update IS applied and relayed to every other neighbour (so that "relay nothing" is not a model)
 GenuineIsRelayed ==
-  [][ (L.class # "init" /\ Plain /\ L.fresh /\ ~(Has(ns.info, L.u.node) /\ LexLE(<<L.u.epoch, L.u.seq>>, ns.info[L.u.node])))
+  [][ (L.class \notin {"init", "expire"} /\ Plain /\ L.fresh /\ ~(Has(ns.info, L.u.node) /\ LexLE(<<L.u.epoch, L.u.seq>>, ns.info[L.u.node])))
         => (L.relayTo = (DOMAIN ns'.conn) \ {L.via} /\ ns'.info[L.u.node] = <<L.u.epoch, L.u.seq>>
             /\ ns'.known[L.u.node] = L.u.conns) ]_vars
 
